@@ -24,7 +24,8 @@ namespace CaddyModel.C11
 /-- names: 0 = "", 1 = a public name, 2 = a local name, 3 = a tailscale name -/
 def exP : Params :=
   { q := fun d => d == 1 || d == 2 || d == 3, pub := fun d => d == 1 || d == 3, ip := fun _ => false,
-    internal := fun d => d == 2, loaded := fun _ => false, ts := fun d => d == 3, mw := fun a b => a == b }
+    internal := fun d => d == 2, loaded := fun _ => false, ts := fun d => d == 3, mw := fun a b => a == b,
+    hm := fun a b => a == b }
 
 def exTcp (p : Nat) : Addr := ⟨0, [], p, p⟩
 
@@ -122,7 +123,7 @@ example : 2 ∈ certsOf exCfg exP Orders.id ∧ exP.pub 2 = false ∧ explicitPo
 def wildP : Params :=
   { q := fun d => d == 1 || d == 2 || d == 3, pub := fun _ => false, ip := fun _ => false,
     internal := fun _ => true, loaded := fun _ => false, ts := fun _ => false,
-    mw := fun a b => a == b || (a == 1 && b == 3) }
+    mw := fun a b => a == b || (a == 1 && b == 3), hm := fun a b => a == b || (a == 1 && b == 3) }
 
 /-- the user has a policy for the wildcard `*.h.internal` with the public ACME issuer; the
     server names `wiki.h.internal` (covered by it) and `localhost` (not covered) -/
@@ -304,6 +305,63 @@ theorem redirect_position (c : Config) (P : Params) (π : Orders) (hres : c.rese
 example : ∃ kv ∈ serversOf exCfg exP Orders.id, kv.1 = 1 ∧
     kv.2.routes = [Route.user 0 true, Route.redir (some [1, 2, 3]) 8443, Route.user 1 false, Route.redir none 0] := by
   decide
+
+/-! ### what a plain HTTP request gets -/
+
+/-- **a served redirect obeys the port rule**: whenever the route list of a resulting server
+    answers a plain-HTTP request (for any host, known or not) with a redirect, the redirect
+    names no port or the start port of a listener of a redirect-enabled server — never 80, 443,
+    the HTTP or the HTTPS port -/
+theorem served_redirect_port_rule (c : Config) (P : Params) (π : Orders) {kv : Nat × SrvOut}
+    (hkv : kv ∈ serversOf c P π) (us : List URoute) (d : Option Name) (p : Nat)
+    (h : serve P us d kv.2.routes = Served.redir p) :
+    p = 0 ∨ (p ≠ httpPort c ∧ p ≠ httpsPort c ∧ p ≠ 80 ∧ p ≠ 443 ∧
+      ∃ s ∈ c.servers, redirOn c s = true ∧ ∃ a ∈ s.listen, a.sp = p) := by
+  obtain ⟨hs, hm⟩ := serve_redir_mem h
+  exact redirect_port_rule c P π hkv hm rfl
+
+example : ∃ kv ∈ serversOf exCfg exP Orders.id, serve exP [⟨[[1]]⟩, ⟨[]⟩] (some 2) kv.2.routes = Served.redir 8443 := by
+  decide
+
+/-- **where the HTTP port carries a user route for a name, that route answers**: in every
+    configured server of the result, if one of the user's routes WITH a host matcher matches a
+    request for `d`, the request is answered by a user route — the inserted redirects never
+    get in front of it -/
+theorem user_host_route_answers (c : Config) (P : Params) (π : Orders) (hres : c.reserved = none)
+    {kv : Nat × SrvOut} (hkv : kv ∈ serversOf c P π) (hk : kv.1 < c.servers.length) :
+    ∃ s ∈ c.servers, ∀ (id : Nat) (r : URoute) (d : Name), s.routes[id]? = some r → r.hms.isEmpty = false →
+      userMatches P s.routes id (some d) = true →
+      ∃ id', serve P s.routes (some d) kv.2.routes = Served.user id' := by
+  obtain ⟨s, hs, mid, cs, he, _, _⟩ := serversOf_shaped c P π hres hkv hk
+  refine ⟨s, hs, ?_⟩
+  intro id r d hget hne hmatch
+  -- the matching route sits in the prefix of user routes before the inserted redirects
+  have hmem : Route.user id true ∈ userRoutes s.routes 0 := by
+    have := userRoutes_mem_of_get (n := 0) hget
+    simpa [hne] using this
+  have hsplit := List.take_append_drop (findLast (userRoutes s.routes 0)) (userRoutes s.routes 0)
+  have hin : Route.user id true ∈ (userRoutes s.routes 0).take (findLast (userRoutes s.routes 0)) := by
+    rw [← hsplit] at hmem
+    rcases List.mem_append.mp hmem with h | h
+    · exact h
+    · have := (findLast_spec (userRoutes s.routes 0)).2 _ h
+      simp [Route.hasHost] at this
+  have hserves : ∃ rt ∈ (userRoutes s.routes 0).take (findLast (userRoutes s.routes 0)),
+      (routeServes P s.routes (some d) rt).isSome = true :=
+    ⟨_, hin, by simp [routeServes, hmatch]⟩
+  rw [he, List.append_assoc, List.append_assoc, serve_append_left hserves]
+  obtain ⟨rt, hrt, hrs⟩ := serve_eq_of_mem hserves
+  obtain ⟨id', r', hrt', _, _⟩ := mem_userRoutes (List.mem_of_mem_take hrt)
+  rw [hrt'] at hrs
+  simp only [routeServes] at hrs
+  split at hrs
+  · exact ⟨id', by simpa using hrs.symm⟩
+  · simp at hrs
+
+example : ∃ kv ∈ serversOf exCfg exP Orders.id, kv.1 = 1 ∧
+    serve exP [⟨[[1]]⟩, ⟨[]⟩] (some 1) kv.2.routes = Served.user 0 ∧
+    serve exP [⟨[[1]]⟩, ⟨[]⟩] (some 2) kv.2.routes = Served.redir 8443 ∧
+    serve exP [⟨[[1]]⟩, ⟨[]⟩] none kv.2.routes = Served.user 1 := by decide
 
 /-! ### the same result every time -/
 
